@@ -12,9 +12,11 @@
       IMAP4rev2 was advertised or UTF8=ACCEPT enabled.
     * `charset_rule` — SEARCH names CHARSET UTF-8 iff the server is not IMAP4rev2, UTF8=ACCEPT is not
       enabled and a BODY / TEXT / HEADER string of the criteria is not ASCII.
-    * `legacy_modseq_counterexample`, `legacy_leak_counterexample` — the two behaviours repaired in
-      go-imap (MODSEQ entry name quoted unchecked; a literal's payload written after the command was
-      refused) are rejected by the oracle of Spec/ClientSyntax, on concrete commands.
+    * `legacy_modseq_counterexample`, `legacy_leak_counterexample`, `legacy_stale_request_counterexample`
+      — the three behaviours repaired in go-imap (MODSEQ entry name quoted unchecked; a literal's
+      payload written after the command was refused; a continuation request queued for a completed
+      command swallowing the next command's `+`) are rejected by the oracle of Spec/ClientSyntax, on
+      concrete commands.
 -/
 import GoImap.Lemmas.ClientSyntaxCaps
 namespace GoImap.C18
@@ -116,6 +118,20 @@ theorem legacy_leak_counterexample :
 example :
     judge [.imap4rev1, .literalMinus] []
         (exec [.imap4rev1, .literalMinus] [] 1 (.login (List.replicate 4097 97) [0]) [.no])
+      = some .ok := by decide +kernel
+
+/-- as shipped, a command whose first literal was refused queued a continuation request for its
+    second literal after it had completed; the `+` the server sent for the NEXT command's literal
+    went to that stale request, and the next command never sent its payload -/
+theorem legacy_stale_request_counterexample :
+    (Legacy.execSeq [.imap4rev1] [] 1 (.login [10] [10]) [.no] (.login [10] [120]) [.cont]).map (·.result)
+      = some .hang ∧
+    judge [.imap4rev1] [] (Legacy.execSeq [.imap4rev1] [] 1 (.login [10] [10]) [.no] (.login [10] [120]) [.cont])
+      = some (.structure_ .incomplete) := by decide +kernel
+
+example :
+    (execSeq [.imap4rev1] [] 1 (.login [10] [10]) [.no] (.login [10] [120]) [.cont]).map (·.result) = some .ok ∧
+    judge [.imap4rev1] [] (execSeq [.imap4rev1] [] 1 (.login [10] [10]) [.no] (.login [10] [120]) [.cont])
       = some .ok := by decide +kernel
 
 end GoImap.C18
